@@ -186,48 +186,77 @@ func linearizable(obj string, ops []opRec) bool {
 			}
 		}
 	}
-	if n > 62 {
-		// sequential long runs: single thread histories are checked by direct replay
-		st := initState(obj)
-		sorted := append([]opRec{}, ops...)
-		sort.Slice(sorted, func(i, j int) bool { return sorted[i].Inv < sorted[j].Inv })
-		for i, o := range sorted {
-			if i > 0 && sorted[i-1].Ret > o.Inv {
-				return false // not sequential: unsupported size
-			}
-			if !st.apply(o) {
-				return false
-			}
-		}
-		return true
-	}
+	// done-set as a bit vector of any length (spin histories have a few hundred operations)
+	words := (n + 63) / 64
 	seen := map[string]bool{}
-	var rec func(done uint64, st seqState) bool
-	rec = func(done uint64, st seqState) bool {
-		if done == 1<<uint(n)-1 {
+	done := make([]uint64, words)
+	ndone := 0
+	keyOf := func(st seqState) string {
+		var sb strings.Builder
+		for _, w := range done {
+			sb.WriteString(strconv.FormatUint(w, 16))
+			sb.WriteByte('.')
+		}
+		sb.WriteByte('#')
+		sb.WriteString(st.key())
+		return sb.String()
+	}
+	// ops are sorted by Inv by every caller; lo = first index not yet linearized (all before are done)
+	var rec func(st seqState, lo int) bool
+	rec = func(st seqState, lo int) bool {
+		if ndone == n {
 			return true
 		}
-		k := strconv.FormatUint(done, 16) + "#" + st.key()
+		for lo < n && done[lo/64]>>uint(lo%64)&1 == 1 {
+			lo++
+		}
+		k := keyOf(st)
 		if seen[k] {
 			return false
 		}
 		seen[k] = true
 		minRet := int64(1) << 62
-		for i, o := range ops {
-			if done>>uint(i)&1 == 0 && o.Ret < minRet {
-				minRet = o.Ret
+		for i := lo; i < n; i++ {
+			if ops[i].Inv > minRet {
+				break
+			}
+			if done[i/64]>>uint(i%64)&1 == 0 && ops[i].Ret < minRet {
+				minRet = ops[i].Ret
 			}
 		}
-		for i, o := range ops {
-			if done>>uint(i)&1 == 1 || o.Inv > minRet {
+		for i := lo; i < n; i++ {
+			o := ops[i]
+			if o.Inv > minRet {
+				break
+			}
+			if done[i/64]>>uint(i%64)&1 == 1 {
 				continue
 			}
 			ns := st.clone()
-			if ns.apply(o) && rec(done|1<<uint(i), ns) {
+			if !ns.apply(o) {
+				continue
+			}
+			done[i/64] |= 1 << uint(i%64)
+			ndone++
+			ok := rec(ns, lo)
+			done[i/64] &^= 1 << uint(i%64)
+			ndone--
+			if ok {
 				return true
 			}
 		}
 		return false
 	}
-	return rec(0, initState(obj))
+	sorted := true
+	for i := 1; i < n; i++ {
+		if ops[i-1].Inv > ops[i].Inv {
+			sorted = false
+		}
+	}
+	if !sorted {
+		ops = append([]opRec{}, ops...)
+		sort.Slice(ops, func(i, j int) bool { return ops[i].Inv < ops[j].Inv })
+	}
+	return rec(initState(obj), 0)
 }
+
